@@ -454,6 +454,27 @@ namespace bloch::compiler {
         return -1;
     }
 
+    std::optional<SemanticAnalyser::TypeInfo> SemanticAnalyser::inheritedInstantiation(
+        const TypeInfo& derived, const std::string& baseName, int* distance) const {
+        // Walk up from 'derived' (a class with its type arguments), rewriting the arguments
+        // through each 'extends Base<...>' clause, until 'baseName' is reached.
+        TypeInfo cur = derived;
+        for (int hops = 0; hops <= static_cast<int>(m_classes.size()); ++hops) {
+            if (cur.className == baseName) {
+                if (distance)
+                    *distance = hops;
+                return cur;
+            }
+            const ClassInfo* info = findClass(cur.className);
+            if (!info || info->base.empty())
+                return std::nullopt;
+            TypeInfo up = combine(ValueType::Unknown, info->base);
+            up.typeArgs = substituteMany(info->baseTypeArgs, info->typeParams, cur.typeArgs);
+            cur = std::move(up);
+        }
+        return std::nullopt;
+    }
+
     bool SemanticAnalyser::isAssignableType(const TypeInfo& expected,
                                             const TypeInfo& actual) const {
         bool expectedIsArray = isArrayType(expected);
@@ -497,10 +518,9 @@ namespace bloch::compiler {
         if (typeEquals(expected, actual))
             return true;
 
-        if (actual.typeArgs.empty() && expected.typeArgs.empty()) {
-            return actual.className == expected.className ||
-                   isSubclassOf(actual.className, expected.className);
-        }
+        // a subclass instance, with the type arguments its base clause(s) give the expected class
+        if (auto view = inheritedInstantiation(actual, expected.className, nullptr))
+            return typeEquals(expected, *view);
 
         return false;
     }
@@ -555,9 +575,9 @@ namespace bloch::compiler {
         if (typeEquals(expected, actual))
             return 0;
 
-        if (actual.typeArgs.empty() && expected.typeArgs.empty()) {
-            int distance = inheritanceDistance(actual.className, expected.className);
-            if (distance >= 0)
+        int distance = 0;
+        if (auto view = inheritedInstantiation(actual, expected.className, &distance)) {
+            if (typeEquals(expected, *view))
                 return distance;
         }
 
@@ -993,6 +1013,9 @@ namespace bloch::compiler {
                 throw BlochError(ErrorCategory::Semantic, info.line, info.column,
                                  "class 'Object' cannot declare type parameters");
             }
+            // 'extends Base<...>': the arguments, written in terms of this class's own parameters
+            if (hasExplicitBase && clsNode->baseType)
+                info.baseTypeArgs = typeFromAst(clsNode->baseType.get()).typeArgs;
             for (auto& member : clsNode->members) {
                 if (!member)
                     continue;
